@@ -7,8 +7,8 @@ import (
 
 func init() {
 	register(&Rule{
-		Name: "DESCSTEP",
-		Doc: "in the typed path walkers (switches over the path-step kind that re-assign the current descriptor) every container step — PathIndex, PathStrKey, PathIntKey, PathBinKey — moves the descriptor to the ELEMENT type (`desc = desc.Elem()`), as its siblings do: stepping to Key() returns the value under the key's descriptor (wrong type and span)",
+		Name:     "DESCSTEP",
+		Doc:      "in the typed path walkers (switches over the path-step kind that re-assign the current descriptor) every container step — PathIndex, PathStrKey, PathIntKey, PathBinKey — moves the descriptor to the ELEMENT type (`desc = desc.Elem()`), as its siblings do: stepping to Key() returns the value under the key's descriptor (wrong type and span)",
 		Configs:  "NP",
 		Floor:    map[string]int{"N": 5, "P": 5},
 		Controls: 1,
